@@ -243,8 +243,9 @@ def execute(cd):
             inp, peek = wrap_input(arr, kind, dtype)
             c = pad_const_py(cd['c'], dtype)
             kw = {}
+            odt = cd.get('odtype') or dtype          # `out` may be WIDER than the input ("able to hold the data type of the input")
             if cd.get('out') == 'given':
-                kw['out'] = garbage(cd['ran'], dtype, cd.get('order', 'C'))
+                kw['out'] = garbage(cd['ran'], odt, cd.get('order', 'C'))
             try:
                 if cd.get('style') == 'arrays':
                     a_shp, a_off, a_c = np.array(cd['ran'], dtype=int), np.array(cd['offs'], dtype=int), np.array(c)
@@ -269,12 +270,12 @@ def execute(cd):
                     notes.append('input-modified')
             if 'out' in kw and res is not kw['out']:
                 notes.append('out-not-returned')
-            rdt = np.dtype(dtype) if (kind != 'list' or 'out' in kw) else res.dtype
+            rdt = np.dtype(odt if 'out' in kw else dtype) if (kind != 'list' or 'out' in kw) else res.dtype
             if res.dtype != rdt:
                 notes.append('dtype-changed:%s' % res.dtype)
             if tuple(res.shape) != tuple(cd['ran']):
                 notes.append('shape:%s' % (res.shape,))
-            return snap_block(np.asarray(res), D, dtype), '', notes, info
+            return snap_block(np.asarray(res), D, odt if 'out' in kw else dtype), '', notes, info
         op = make_operator(cd)
         obs['linear'] = 1 if op.is_linear else 0
         if 'Dg' in cd:
@@ -321,6 +322,8 @@ def execute(cd):
 def result_dtype(cd):
     """data type of the result of the call (= of the fill): resize_array keeps the input's, the operator (and its
     derivative) produce the range's, adjoint / inverse the domain's"""
+    if cd['api'] == 'resize_array' and cd.get('out') == 'given' and cd.get('odtype'):
+        return cd['odtype']
     if cd['api'] == 'resize_array' or cd['variant'] in ('adjoint', 'inverse'):
         return cd['dtype']
     return cd.get('rdtype') or cd['dtype']
